@@ -58,7 +58,6 @@ package headers
 //@   ensures result1 == nil ==> len(rangeStr) >= 7 && rangeStr[0:6] == "bytes="
 //@   ensures result1 == nil ==> result0.start >= -1 && result0.end >= -1 && !(result0.start == -1 && result0.end == -1)
 //@   ensures result1 != nil ==> result0.start == 0 && result0.end == 0
-//@   ensures [C07] result1 == nil && result0.start == -1 ==> rangeStr[6] == '-' && (exists e int :: 1 < e && 6 + e <= len(rangeStr) && (forall j int :: 7 <= j && j < 6 + e ==> specIsDigit(rangeStr[j]) || specIsSp(rangeStr[j])) && (6 + e < len(rangeStr) ==> rangeStr[6+e] != ',' && rangeStr[6+e] != '-'))
 
 // ---------------------------------------------------------------- Cache-Control / Expires
 
